@@ -83,10 +83,13 @@ func c15dispatch(c *an.Ctx) {
 	}
 	okFall := false
 	for _, r := range an.Returns(exec) {
-		if call := an.CallResultOf(errOperand(r), fatal); call != nil {
-			if code, _ := an.ConstString(call.Call.Args[1]); code == "E_INVALID" {
-				if _, isSprintf := an.Strip(call.Call.Args[2]).(*ssa.Call); isSprintf {
-					okFall = true
+		// the error of a return, or – behind a single exit – each value merged into it
+		for _, o := range append([]ssa.Value{errOperand(r)}, originsOrNone(errOperand(r))...) {
+			if call := an.CallResultOf(o, fatal); call != nil {
+				if code, _ := an.ConstString(call.Call.Args[1]); code == "E_INVALID" {
+					if _, isSprintf := an.Strip(call.Call.Args[2]).(*ssa.Call); isSprintf {
+						okFall = true
+					}
 				}
 			}
 		}
